@@ -21,10 +21,21 @@ pub fn run(args: &Args) {
     let w_restart = args.num("w-restart", 0);
     let anywhere = args.num("append-anywhere", 0); // percent of appends issued at a non-leader (check-then-act window)
     let max_appends = args.num("max-appends", 6);
+    // partitions: with this weight the scheduler isolates one node (or heals); while a node is isolated every
+    // message to or from it is lost at the moment it would be delivered - the classic way to get divergent logs
+    let w_part = args.num("w-partition", 0);
+    // forks: re-run one program exactly up to step `fork-step` (same random stream), then continue `fork-count` times
+    // with a fresh random stream each and a benign network (no loss, duplication or partition), so that the
+    // consequences of whatever happened at that step unfold; each continuation is one run of the trace
+    let fork_step = args.num("fork-step", 0);
+    let fork_count = args.num("fork-count", 1);
+    let fork_steps = args.num("fork-steps", 60);
     std::fs::create_dir_all(&work).unwrap();
     let mut trace = Trace::create(&out);
     let (mut n_steps, mut n_deliver, mut n_drop, mut n_dup, mut n_proc, mut n_append, mut n_restart, mut n_leader_steps) = (0u64, 0u64, 0u64, 0u64, 0u64, 0u64, 0u64, 0u64);
-    for run in first..first + runs {
+    let forks = if fork_step > 0 { fork_count } else { 1 };
+    for (run, fork) in (first..first + runs).flat_map(|r| (0..forks).map(move |f| (r, f))) {
+        let (mut w_drop, mut w_dup, mut w_part) = (w_drop, w_dup, w_part);
         let mut rng = Rng::new(seed.wrapping_mul(1_000_003).wrapping_add(run).wrapping_add(330_001));
         let cfg = settings(args);
         let n = cfg.n as usize;
@@ -33,7 +44,19 @@ pub fn run(args: &Args) {
         trace.emit(sim.reset_event());
         let mut val = 0u64;
         let mut appends = 0u64;
-        for _ in 0..steps {
+        let mut isolated: Option<u64> = None;
+        let total_steps = if fork_step > 0 { fork_step + fork_steps } else { steps };
+        for step_no in 0..total_steps {
+            if fork_step > 0 && step_no == fork_step {
+                rng = Rng::new(seed.wrapping_mul(7919).wrapping_add(run * 1000 + fork).wrapping_add(99));
+                w_drop = 0;
+                w_dup = 0;
+                w_part = 0;
+                isolated = None;
+            }
+            if w_part > 0 && rng.below(1000) < w_part {
+                isolated = if isolated.is_some() && rng.chance(2, 3) { None } else { Some(rng.below(n as u64)) };
+            }
             let w_deliver = if sim.flight.is_empty() { 0 } else { 70 };
             let wd = if sim.flight.is_empty() { 0 } else { w_drop };
             let wu = if sim.flight.is_empty() || sim.flight.len() > 12 { 0 } else { w_dup };
@@ -43,9 +66,14 @@ pub fn run(args: &Args) {
             let mut x = rng.below(total);
             let ev: Value;
             if x < w_deliver {
-                let (id, is_req) = { let m = rng.pick(&sim.flight); (m.0, matches!(m.1, Msg::Req(_))) };
-                ev = if is_req { sim.deliver_req(id) } else { sim.deliver_resp(id) };
-                n_deliver += 1;
+                let (id, is_req, a, b) = { let m = rng.pick(&sim.flight); let (a, b) = ends(&m.1); (m.0, matches!(m.1, Msg::Req(_)), a, b) };
+                if isolated.is_some() && (isolated == Some(a) || isolated == Some(b)) {
+                    ev = sim.drop_msg(id);
+                    n_drop += 1;
+                } else {
+                    ev = if is_req { sim.deliver_req(id) } else { sim.deliver_resp(id) };
+                    n_deliver += 1;
+                }
             } else {
                 x -= w_deliver;
                 if x < wd {
@@ -93,6 +121,12 @@ pub fn run(args: &Args) {
     println!("{}", json!({"first": first, "programs": runs, "steps": n_steps, "deliveries": n_deliver, "drops": n_drop, "dups": n_dup,
                           "process_calls": n_proc, "appends": n_append, "restarts": n_restart, "steps_with_a_leader": n_leader_steps,
                           "trace_events": trace.events}));
+}
+
+/// (sender, target) of the underlying request
+fn ends(m: &Msg) -> (u64, u64) {
+    let r = match m { Msg::Req(r) => r, Msg::Resp(r, _) => r };
+    (r.index, r.target)
 }
 
 fn req_matches(m: &Msg, want: &Value, resp: bool) -> bool {
